@@ -463,7 +463,9 @@ def run_tx(ctx, pid, run, idx, replay, BUILD, ROOT):
 TX_RULE = ("sequential TX histories (tx.Query on statements cached on the DB or not, with and without outputs; run; Commit; Rollback; "
            "queries built before and run after the end) compared with the model per op (execution on the transaction's connection, "
            "ErrTXDone, finish events), plus races of 2-6 concurrent Commit/Rollback calls and runs released together, checked by "
-           "oracles on the driver log; non-trivial iff distinct and more than 2 ops")
+           "oracles on the driver log, driver faults and cancelled call contexts inside a transaction, finishers with an open "
+           "Iterator, and a Statement run 1-8 times in a transaction and afterwards on the DB; non-trivial iff distinct and "
+           "more than 2 ops")
 
 
 CACHE_RULE = ("sequential histories over <=3 Statements x <=3 DBs x 3 argument shapes x 4 contexts: run, open iterator, drop Query, "
